@@ -23,7 +23,7 @@ BUILD = os.environ.get("VERIF_BUILD", os.path.join(VERIF, "build"))
 GUARD = "CLIPPER2_VERIF"
 
 COMMON = ["-std=c++17", "-g", "-fno-omit-frame-pointer", "-D" + GUARD, "-pthread"]
-SAN = ["-O1", "-fsanitize=address,undefined", "-fno-sanitize-recover=all"]
+SAN = ["-O1", "-fsanitize=address,undefined", "-fsanitize=float-cast-overflow", "-fno-sanitize-recover=all"]
 
 CFGS = {
     "plain":    ["-O2"],
@@ -33,7 +33,7 @@ CFGS = {
     "asan_big": SAN + ["-fno-sanitize=signed-integer-overflow"],
     "asan_z":   SAN + ["-DUSINGZ"],
     "asan_bigz": SAN + ["-fno-sanitize=signed-integer-overflow", "-DUSINGZ"],
-    "asan_fc":  SAN + ["-fno-sanitize=signed-integer-overflow", "-fsanitize=float-cast-overflow"],
+    "asan_fc":  SAN + ["-fno-sanitize=signed-integer-overflow"],
     "tsan":     ["-O1", "-fsanitize=thread"],
     "noexc":    ["-O2", "-fno-exceptions"],
     "portable": ["-O2", "-include", os.path.join(HARNESS, "prelude_portable.h")],
